@@ -287,5 +287,5 @@ def run(ctx):
     ctx.floor('gate', 8)
     ctx.floor('polarity', 7)
     ctx.floor('inputs', 18)
-    ctx.floor('fail', 4)
+    ctx.floor('fail', 5)
     ctx.floor('merkle', 8)
